@@ -108,7 +108,9 @@ func Crit(msg string, ctx ...interface{}) {
 		debug.PrintStack()
 		time.Sleep(time.Second)
 	}
-	verifhook.Crit(msg)
+	if verifhook.Crit(msg) {
+		return
+	}
 	os.Exit(1)
 }
 
